@@ -65,7 +65,7 @@ CHECKS['C11'] = dict(text='Symbolic execution of resolve_string / Module::scope 
 CHECKS['C14'] = dict(text='Symbolic execution of add_module / add_item / the resolution loop on modules with every combination of a duplicate type or enum declaration, '
              'a user type named like a generated vftable struct, an extern type of the same name and a same-named type in another module: z3 proves '
              'accepted <=> no two declarations share an item path, and that each declared item is in its own module\'s definition set only.',
-             note='item level only: file names, directory creation, prologue/epilogue order and formatting (lib.rs::build, write_module) are file-system code outside the claim',
+             note='the all-inputs claim is at item level (incl. rust backend blocks kept complete and in source order); file names, one file per module, each item exactly once in its module\'s file and prologue / epilogue placement are inspected concretely on the files the real backend writes for the accepted witnesses; directory discovery and lib.rs::build are outside',
              design='4/C14')
 CHECKS['C15'] = dict(text='Symbolic execution of the singleton / extern-value handling with every address symbolic over the whole isize range and value types over '
              'scalars, pointers, arrays and unresolvable names: on accepted paths z3 proves the stored singleton and extern-value addresses equal the '
